@@ -123,6 +123,32 @@ def run(tier, seed, replay=None):
             limit = rnd.choice([1, 3, 16, 64, 5000])
             cases.append(("disc %d %s" % (limit, ",".join(words)),
                           ["all " + " ".join("%d %d" % n for n in nets)], "disc", len(nets), limit))
+        # the same with devices already registered in EdgeX and operating at some of the enumerated addresses: they are enumerated
+        # (the estimate counts them: it "equals the number enumerated") but not probed; incl. subnets ALL of whose hosts are registered
+        def hosts_of(a, p):
+            if p >= 31:
+                return [a]
+            net_ = a & ~((1 << (32 - p)) - 1) & 0xFFFFFFFF
+            return list(range(net_ + 1, net_ + (1 << (32 - p)) - 1))
+        for i in range(6 if thorough else 3):
+            nets = [lo_net() for _ in range(rnd.choice([1, 2, 3]))]
+            if i == 0:
+                nets = [n for n in nets if n[1] <= 30][:1] + [(lo_net()[0], 32)]      # a /32 whose only address is registered
+            hs = sorted(set(h for a, p in nets for h in hosts_of(a, p)))
+            if i == 0:
+                reg = [nets[-1][0]]
+            elif i == 1:
+                a, p = nets[0]
+                reg = hosts_of(a, p) if len(hosts_of(a, p)) <= 6 else rnd.sample(hs, 3)   # every host of one subnet
+            else:
+                reg = rnd.sample(hs, min(len(hs), rnd.choice([1, 2, 5])))
+            if len(nets) == 1 and set(reg) >= set(hs):
+                limit = 4
+            else:
+                limit = rnd.choice([1, 3, 16, 5000])
+            words = ["%s/%d" % (ip_s(a), p) for a, p in nets]
+            cases.append(("discreg %d %s %s" % (limit, ",".join(words), ",".join(str(x) for x in reg)),
+                          ["all " + " ".join("%d %d" % n for n in nets)], "discreg", len(nets), limit))
         # cancelling a whole autoDiscover run (several large subnets, refused probes, cancel after a
         # while): the call has to return
         for nets, ms in ([("127.0.0.0/10,127.64.0.0/10", 150), ("127.128.0.0/12,127.160.0.0/12,127.192.0.0/12", 60),
@@ -153,13 +179,19 @@ def run(tier, seed, replay=None):
         oi += len(oq)
         evals += 1
         dist[kind] = dist.get(kind, 0) + 1
-        if kind == "disc":
+        if kind in ("disc", "discreg"):
             nontriv.add((kind, req))
         elif kind != "sz" and p <= 30:
             nontriv.add((kind, a, p))
         expect = None
         if kind in ("sz", "gen", "sum", "rawgen", "disc"):
             expect = o[0].strip()
+        elif kind == "discreg":
+            # the model's enumeration (estimate = its length) minus the registered addresses is what gets probed
+            ow = o[0].split()
+            reg = set(req.split()[3].split(","))
+            probed = [x for x in ow[2:] if x not in reg]
+            expect = " ".join([ow[0], str(len(probed))] + probed)
         elif kind == "head":
             vals = [x.strip() for x in o if x.strip() != "none"]
             expect = "true" + "".join(" " + v for v in vals)
@@ -178,6 +210,20 @@ def run(tier, seed, replay=None):
         elif kind == "cancel":
             res.violation("cancel-blocks:/%d" % p if p >= 31 else "cancel-blocks:loop",
                           "ipGenerator for %s/%d did not return within 3s after cancellation with no consumer" % (ip_s(a), p), replay_d)
+        elif kind == "discreg":
+            gw, ew = g.split(), expect.split()
+            regs = req.split()[3]
+            if "did not return" in g:
+                res.violation("registered-devices-block-discovery", "autoDiscover over %s with operating devices registered at %s (async limit %s) had not returned after 25 s "
+                              "(%s addresses to enumerate, %s of them to probe)" % (req.split()[2], regs, req.split()[1], ew[0], ew[1]), replay_d)
+            elif g.startswith("error") or len(gw) < 2:
+                res.violation("autodiscover-fails", "autoDiscover over %s: %s" % (req.split()[2], g[:300]), replay_d)
+            elif gw[1:] != ew[1:]:
+                res.violation("enum-wrong:autodiscover-registered", "autoDiscover over %s with operating devices registered at %s probed %s addresses, the hosts of those subnets "
+                              "without the registered ones are %s: observed %s" % (req.split()[2], regs, gw[1], ew[1], g[:300]), replay_d)
+            else:
+                res.violation("estimate-wrong:registered", "autoDiscover over %s with operating devices registered at %s logs a probe estimate of %s but enumerates %s addresses "
+                              "(%s probed + the registered ones that are skipped)" % (req.split()[2], regs, gw[0], ew[0], gw[1]), replay_d)
         elif kind == "disc":
             gw, ew = g.split(), expect.split()
             if g.startswith("error") or len(gw) < 2:
